@@ -192,7 +192,7 @@ static void enumerate(const std::string &tier, int shard, int nshards, const std
 }
 
 int main(int argc, char **argv) {
-    for (int i = 1; i < argc; i++) if (std::string(argv[i]) == "thorough") MAXCELLS = 20000;
+    for (int i = 1; i < argc; i++) if (std::string(argv[i]) == "thorough") MAXCELLS = 8000;
     Harness<Case> h;
     h.id = "C07";
     h.draw = draw;
